@@ -601,6 +601,18 @@ fn long_domains(rng: &mut Rng) -> Vec<Vec<u8>> {
         v.push(format!("{}\u{FF41}", a(n - 1)));
         v.push(format!("b.{}\u{AD}", a(n)));
     }
+    // an over-long xn-- label behind more than 2004 code units of earlier labels (marker index must be absolute)
+    v.push(format!("{}.xn--{}", "B".repeat(2100), a(2001)));
+    v.push(format!("{}.{}.xn--{}", a(1500), "b1".repeat(400), a(2001)));
+    // the lowest non-ASCII code point twice with many basic code points between (bias adaptation inside one scan)
+    for n in [30usize, 33, 35, 40, 60] {
+        v.push(format!("\u{e9}{}\u{e9}\u{fc}", a(n)));
+        v.push(format!("x.\u{e9}{}\u{e9}\u{4e2d}", a(n)));
+    }
+    // Unicode spelling longer than 254 bytes whose ASCII form is DNS-valid
+    let l50 = "\u{65e5}".repeat(50);
+    v.push(format!("{0}.{0}.{0}", l50));
+    v.push(format!("{0}.{0}.{0}.", l50));
     let big: String = (0..990).map(|_| *rng.pick(&["\u{E9}", "\u{4E2D}", "a"])).collect();
     v.push(puny(&big));
     v.push(big);
@@ -820,7 +832,7 @@ fn run_corr(args: &Args) -> Report {
     // label-shape cross product: what precedes a mixed-case / already-Punycode label decides which flush path the
     // output walks take (passthrough prefix, digit-first, underscore, lower-case xn--, non-ASCII)
     for first in ["1a", "a_b", "xn--4db", "a", "A", "\u{e9}", "a-", "xn--bcher-kva"] {
-        for second in ["xn--Bcher-kva", "xn--bcHer-kva", "XN--BCHER-KVA", "xn--bcher-kva", "xN--4dB", "b\u{fc}cher", "Bcher", "xn--a"] {
+        for second in ["xn--Bcher-kva", "xn--bcHer-kva", "XN--BCHER-KVA", "xn--bcher-kva", "xN--4dB", "b\u{fc}cher", "Bcher", "xn--a", "xn--zn7c", "xn--a-q10i", "xn--b-p10i"] {
             for third in ["example", "", "\u{5d0}", "xn--4db"] {
                 let d = if third.is_empty() { format!("{}.{}", first, second) } else { format!("{}.{}.{}", first, second, third) };
                 compare(&mut drv, &mut rep, "label-shapes", &full_req(d.as_bytes()));
